@@ -93,7 +93,8 @@ def analyse(prog, fn, rng_sensitive=True):
                         continue
                     if kind == "collect" and dl is not None and _loop_without_sinks(prog, fn, dl, rng_sensitive):
                         continue
-                    out.append({"kind": "vec-in-hash-order", "ln": ct["ln"], "what": "collects an unordered iteration over %s into a Vec that is used without sorting" % src, "over": src})
+                    out.append({"kind": "vec-in-hash-order", "ln": ct["ln"], "what": "collects an unordered iteration over %s into a Vec that is used without sorting" % src, "over": src,
+                                "returned": kind == "collect" and dl == 0})
                 else:
                     out.append({"kind": kind, "ln": ct["ln"], "what": "order-sensitive consumer `%s` on an unordered iteration over %s" % (kind, src), "over": src})
     return out
@@ -197,3 +198,32 @@ def _loop_without_sinks(prog, fn, local, rng_sensitive):
                 continue
         return False
     return True
+
+
+def caller_orders_result(prog, g, f):
+    """For a function f that returns a Vec built in hash order: does caller g neutralise the order at every call of f?
+    returns (n_calls, [line numbers of calls whose result is used order-sensitively])"""
+    n = 0
+    badl = []
+    for b, t in g.calls():
+        if prog.local_callee(g, t) is not f:
+            continue
+        n += 1
+        if "p" in t["dest"]:
+            badl.append(t["ln"])
+            continue
+        dl = t["dest"]["l"]
+        if _sorted_later(g, dl, b) or _only_order_insensitive_uses(g, dl):
+            continue
+        cons = _consumer_chain(g, dl)
+        # `.iter()` / `.into_iter()` on the Vec are adaptors here; every terminal consumer must be order-insensitive
+        inner = []
+        for cb, ct in cons:
+            if is_callee(ct, r"slice::<impl \[.*\]>::iter$", r"Vec<.*> as std::iter::IntoIterator>::into_iter$", r"Deref>::deref$") and "p" not in ct["dest"]:
+                inner.extend(_consumer_chain(g, ct["dest"]["l"]))
+            else:
+                inner.append((cb, ct))
+        if inner and all(is_callee(ct, *ORDER_INSENSITIVE) for _, ct in inner):
+            continue
+        badl.append(t["ln"])
+    return n, badl
